@@ -490,6 +490,49 @@ fn scaled_f64_space(ctx: &Ctx) {
     }
 }
 
+/// f64 integer matrices with their COLUMNS scaled by powers of two so that the first pivot column is subnormal while the determinant
+/// is of order one: (2^-1030, 2^1030 / 2^0 ..). Every multiplier is a ratio of small integers, so nothing here needs the reciprocal of
+/// a pivot; the exact determinant is det(A0) times the product of the column scales
+fn column_scaled_space(ctx: &Ctx) {
+    for (n, letters, cs) in [(2usize, z5(), vec![2f64.powi(-1030), 2f64.powi(1000)]), (3usize, z3(), vec![2f64.powi(-1030), 2f64.powi(1000), 2f64.powi(30)]), (2usize, z5(), vec![2f64.powi(900), 2f64.powi(-1040)])] {
+        let len = pow(letters.len() as u64, (n * n) as u32);
+        let cs2 = cs.clone();
+        ctx.lattice(
+            &format!("f64 n={} integer lattice with columns scaled by {:?}: determinant against det(A0) * prod(scales)", n, cs.iter().map(|s| format!("2^{}", s.log2())).collect::<Vec<_>>()),
+            len,
+            |idx| model::show(&model::mat_from_idx(idx, n, &letters)),
+            |idx, acc| {
+                let a = model::mat_from_idx(idx, n, &letters);
+                let d0 = model::det(&a).to_f64();
+                let mut m = Matrix::<f64>::new(n, n, 0.0);
+                for i in 0..n {
+                    for j in 0..n {
+                        m[(i, j)] = a[i][j].to_f64() * cs2[j];
+                    }
+                }
+                acc.nontriv("matrix with a subnormal column");
+                let key = || format!("column-scaled A0={} scales={:?}", model::show(&a), cs2);
+                let res = catch(|| -> Result<(), String> {
+                    let got = m.determinant();
+                    // unscale one column at a time (exact, and the partial results stay in range)
+                    let mut g = got;
+                    for s in cs2.iter().rev() {
+                        g /= *s;
+                    }
+                    let had: f64 = (0..n).map(|i| (0..n).map(|j| a[i][j].to_f64().powi(2)).sum::<f64>().sqrt().max(1.0)).product();
+                    ensure!(g.is_finite() && (g - d0).abs() <= 1e-10 * had, "determinant / prod(scales) = {:e} but det(A0) = {:e} (determinant() = {:e})", g, d0, got);
+                    Ok(())
+                });
+                match res {
+                    Ok(Ok(())) => {}
+                    Ok(Err(e)) => acc.fail(idx, key(), e),
+                    Err(p) => acc.fail(idx, key(), format!("unexpected panic: {}", p)),
+                }
+            },
+        );
+    }
+}
+
 fn cletters(full: bool) -> Vec<(Cmplx, CQ)> {
     let c = |a: f64, b: f64| Cmplx::new(a, b);
     let q = |a: i64, b: i64| CQ::new(r(a), r(b));
@@ -664,6 +707,7 @@ fn main() {
     f64_space(&ctx, 2, z5(), "{0,1,-1,2,-2}");
     f64_space(&ctx, 3, z3(), "{0,1,-1}");
     scaled_f64_space(&ctx);
+    column_scaled_space(&ctx);
     mixed_space(&ctx, 2);
     mixed_space(&ctx, 3);
     complex_space(&ctx, 1, true);
@@ -698,6 +742,34 @@ fn main() {
                     let a = Matrix::<Cmplx>::new(1, 1, Cmplx::new(1e200, 0.0));
                     let inv = a.inverse();
                     ensure!((inv[(0, 0)].real - 1e-200).abs() <= 1e-212 && inv[(0, 0)].imag == 0.0, "inverse = {:?} but the exact value is 1e-200", inv[(0, 0)]);
+                    Ok(())
+                })),
+                ("extreme-complex top binade: determinant and inverse of [(2 - i) 2^1022]".to_string(), Box::new(|| {
+                    // the larger part of the entry lies in [2^1023, 2^1024): the power of two that scales it to order one is subnormal
+                    let p = 2f64.powi(1022);
+                    let a = Matrix::<Cmplx>::new(1, 1, Cmplx::new(2.0 * p, -p));
+                    let d = a.determinant();
+                    ensure!(d.real == 2.0 * p && d.imag == -p, "determinant = {:?} but the entry is (2 - i) 2^1022", d);
+                    // 1 / ((2 - i) p) = (2 + i) / (5 p)
+                    let inv = a.inverse();
+                    let (wr, wi) = (0.4 / p, 0.2 / p);
+                    ensure!((inv[(0, 0)].real / wr - 1.0).abs() <= 1e-12 && (inv[(0, 0)].imag / wi - 1.0).abs() <= 1e-12, "inverse = {:?} but the exact value is ({:e}, {:e})", inv[(0, 0)], wr, wi);
+                    Ok(())
+                })),
+                ("extreme-complex top binade: inverse of 2^1020 [[2-i, 1],[0, 4i]] row 2 times 2^-1000".to_string(), Box::new(|| {
+                    // pivots (2 - i) 2^1022 (top binade) and 4i 2^20: determinant representable, inverse entries down to 2^-1024
+                    let p = 2f64.powi(1022);
+                    let q = 2f64.powi(20);
+                    let mut a = Matrix::<Cmplx>::new(2, 2, Cmplx::new(0.0, 0.0));
+                    a[(0, 0)] = Cmplx::new(2.0 * p, -p);
+                    a[(0, 1)] = Cmplx::new(p, 0.0);
+                    a[(1, 1)] = Cmplx::new(0.0, 4.0 * q);
+                    let d = a.determinant();
+                    // (2 - i)(4 i) p q = (4 + 8 i) p q = 2^1044 (1 + 2 i): overflows - only the inverse is judged: inv[(1,1)] = 1 / (4 i q) = -i / (4 q)
+                    let _ = d;
+                    let inv = a.inverse();
+                    ensure!(inv[(1, 1)].real.abs() <= 1e-300 && (inv[(1, 1)].imag * 4.0 * q + 1.0).abs() <= 1e-12, "inverse[(1,1)] = {:?} but the exact value is -i / 2^22", inv[(1, 1)]);
+                    ensure!((inv[(0, 0)].real * p / 0.4 - 1.0).abs() <= 1e-9 && (inv[(0, 0)].imag * p / 0.2 - 1.0).abs() <= 1e-9, "inverse[(0,0)] = {:?} but the exact value is (0.4 + 0.2 i) / 2^1022", inv[(0, 0)]);
                     Ok(())
                 })),
                 ("extreme-complex inverse [[2^342,2^342],[0,2^-342]]".to_string(), Box::new(|| {
